@@ -268,9 +268,13 @@ def nodeClaimReward (e : Env) (s : State) (creator : Addr) : TxM (State × Int) 
   if remain < 0 then throw "negative dec coin"
   let pledge := { pledge with reward := remain }
   let (s, worker) ← marketClaim s creator
+  let workerBefore := worker
   let (s, rs) := repayPledgeDebt s creator [claim, worker]
   let claim := rs.headD 0
   let worker := (rs.drop 1).headD 0
+  -- debt repaid out of storage income moves market -> node escrow (the `fix:` of F09)
+  let repaid := workerBefore - worker
+  let s ← (if repaid ≠ 0 then s.send e.modMarket e.modNode repaid else pure s : TxM State)
   let s ← (if claim ≠ 0 then s.send e.modNode creator claim else pure s : TxM State)
   let s ← (if worker ≠ 0 then s.send e.modMarket creator worker else pure s : TxM State)
   pure (s.setPledge pledge, claim + worker)
